@@ -444,11 +444,11 @@ def run(chk):
         if cls and d17 is not None:
             chk.known("D17")
             continue
-        # finding D41-subquery-schema-lost: the schema of a select-list subquery's table is lost on the way through `_get_column_from_subquery`
-        if not cls and chk.finding("D41-subquery-schema-lost") is not None and mech.split(":")[0] in ("scoped", "env", "env+scoped") and \
+        # finding D45-subquery-schema-lost: the schema of a select-list subquery's table is lost on the way through `_get_column_from_subquery`
+        if not cls and chk.finding("D45-subquery-schema-lost") is not None and mech.split(":")[0] in ("scoped", "env", "env+scoped") and \
                 (gensql.item_has_subq(it["ast"]) if it["ast"] is not None else corpus14.text_item_has_subq(it["sql"] if isinstance(it["sql"], str) else ";".join(it["sql"]))) \
                 and "cyto_table" not in diff_keys(got, exp) and not any(x in diff_keys(got, exp) for x in ("source", "target", "intermediate")):
-            chk.known("D41-subquery-schema-lost")
+            chk.known("D45-subquery-schema-lost")
             continue
         if reported >= 3:
             continue
